@@ -105,6 +105,9 @@ def run(pid, tier_, replay=None):
     nev, viol, obs = bp.run_bpobs(merged, timeout=1200 if quick else 6000)
     stats = bp.trace_stats(merged)
 
+    # 4a. Split.tla: every tree x size on the specification and on the real split functions (C05, C09)
+    split = bp.split_vectors(binp, tier_) if pid in ("C05", "C09") else None
+
     # 4b. white-box conformance: every recorded execution must be a behaviour of BatchProcessor.tla (BPTrace.tla)
     conf = bp.run_bptrace(merged, timeout=900 if quick else 3000)
 
@@ -129,6 +132,14 @@ def run(pid, tier_, replay=None):
         found.append(dict(signature=sig, what="%s: %s violated in scenario %s at event %d" % (pid, clause, sc["id"], seq),
                           replay=dict(property=pid, clause=clause, scenario=sc, event_seq=seq,
                                       events=bp.scenario_events(merged, tr)[:400])))
+    if split:
+        for n_, prop, clause, case in split["violations"]:
+            if prop != pid:
+                continue
+            found.append(dict(signature="%s depth=%s" % (clause, case["depth"]),
+                              what="%s: %s on split case %s size %s (%s)" % (pid, clause, json.dumps(case["shape"]), case["size"], case["sig"]),
+                              replay=dict(property=pid, clause=clause, split_case=case)))
+        model_issues.extend(split["model_issues"])
     # distinct non-trivial executions: at least one export, distinct (config, outcome-shape) signature
     sigs = set()
     for tr, st in stats.items():
@@ -150,7 +161,7 @@ def run(pid, tier_, replay=None):
                         "script": sc["steps"][:25],
                         "trace": ["%s %s%s%s" % (e["ev"], e["c"], e["s"] and "@" + e["s"], e["e"] and " e%d" % e["e"] or "")
                                   for e in bp.scenario_events(merged, tr)[:40]]})
-    drift = conf["accepted"] < conf["total"] or conf["errors"]
+    drift = conf["accepted"] < conf["total"] or conf["errors"] or (split and split["drift"])
     level = "model_checking" if not model_issues and not drift else "exploration"
     cov = dict(
         states=states, transitions=trans, traces_validated_against_impl=conf["accepted"], samples=samples,
@@ -167,6 +178,11 @@ def run(pid, tier_, replay=None):
         tlc_behaviours_replayed=nbeh, seeded_scenarios=nrand, events_judged=nev, scenario_features=agg,
         harness_aborts=notes[:5], model_issues=model_issues, exhaustive=False,
     )
+    if split:
+        cov["split"] = dict(spec="Split.tla / SplitObs.tla", spec_states=split["states"], cases=split["cases"], real_runs=split["runs"],
+                            conformance_drift=len(split["drift"]), samples=split["samples"][:2], exhaustive_within_bounds=True)
+        cov["states"] += split["states"]
+        cov["transitions"] += split["generated"]
     assumptions = [
         "virtual time of testing/synctest stands for the component's clock; time passes only when every processor goroutine is blocked",
         "TLC explores BatchProcessor.tla exhaustively only within the stated constants (2-3 callers, sizes 1-3, one to three combinations)",
@@ -177,6 +193,8 @@ def run(pid, tier_, replay=None):
     for rj in conf["rejected"][:5]:
         print("DRIFT (not a verdict): BatchProcessor.tla does not explain event %s of execution %s (after %s)"
               % (json.dumps(rj["rejected_event"]), all_sc[rj["rejected_tr"] - 1]["id"], ",".join(rj["context"][-3:])))
+    if split and split["drift"]:
+        print("DRIFT (not a verdict): %d split cases where the real fragments differ from Split.tla's, e.g. %s" % (len(split["drift"]), json.dumps(split["drift"][0])))
     for er in conf["errors"][:2]:
         print("DRIFT (not a verdict): BPTrace run failed: %s" % er[-400:].replace("\n", " | "))
     for mi in model_issues:
